@@ -731,9 +731,12 @@ func (e *engine) eval() error {
 			inputFacts = append(inputFacts, fact)
 			return nil
 		})
-		var merr error
+		var merr, limitErr error
 		if err := EvalTransformWithInputFacts(clause.Head, *clause.Transform, substs, inputFacts,
 			func(a ast.Atom, kind TransformKind, groupKey []ast.Constant, groupFacts []ast.Atom) bool {
+				if limitErr != nil {
+					return false // Over the fact limit: create no more facts.
+				}
 				a, err := functional.EvalAtom(a, ast.ConstSubstList{})
 				if err != nil {
 					merr = multierr.Append(merr, err)
@@ -742,9 +745,16 @@ func (e *engine) eval() error {
 				if e.options.recorder != nil && kind == TransformKindDo {
 					e.options.recorder.DoEmit(clause, clause.Head, groupKey, groupFacts, a)
 				}
-				return e.store.Add(a)
+				added := e.store.Add(a)
+				if added {
+					limitErr = e.checkTotalFactLimit()
+				}
+				return added
 			}); err != nil {
 			return err
+		}
+		if limitErr != nil {
+			return limitErr
 		}
 		if merr != nil {
 			return merr
